@@ -22,7 +22,7 @@ RULE = ('streams of 0-300 bytes over the alphabet {a, b, CR, LF} (delimiters of 
         'ones included, straddle chunk edges); all 2^(n-1) compositions of short streams (n <= 10; 12 in '
         'thorough) systematically, then random compositions down to one byte at a time; recvsize 1-64; maxsize '
         'around the delimiter position; socket timeouts and virtual-clock jumps between any two chunks, each '
-        'timed-out call retried; send scripts of partial counts, timeouts, EAGAIN and slow sends during which the deadline passes; netstring payloads re-chunked; '
+        'timed-out call retried; send scripts of partial counts, timeouts, EAGAIN and slow sends during which the deadline passes; transport errors other than timeouts between chunks; netstring payloads re-chunked; '
         'distinct = distinct (stream, composition, call list) cases in which a delimiter or size boundary '
         'straddled a chunk edge or a timeout was injected')
 ASSUMPTIONS = [
@@ -90,6 +90,8 @@ class ScriptedSocket(object):
             ev = self.script.pop(0)
             if ev[0] == 'timeout':
                 raise socket.timeout('timed out')
+            if ev[0] == 'oserror':
+                raise ConnectionResetError(104, 'scripted transient transport error')
             self.pending = ev[1].encode('latin-1')
             self.clock.now += ev[2]
         out, self.pending = self.pending[:n], self.pending[n:]
@@ -164,7 +166,7 @@ def check_recv(c, st):
                                recvsize=c['recvsize'])
         delivered = b''
         bnds = boundaries(c['script'])
-        interesting = any(e[0] == 'timeout' or (e[0] == 'data' and e[2] > 1) for e in c['script'])
+        interesting = any(e[0] in ('timeout', 'oserror') or (e[0] == 'data' and e[2] > 1) for e in c['script'])
 
         def conserve(where):
             have = delivered + bs.getrecvbuffer() + sock.undelivered()
@@ -211,6 +213,16 @@ def check_recv(c, st):
                     continue
                 except (su.ConnectionClosed, su.MessageTooLong) as e:
                     res = ('exc', type(e).__name__)
+                except ConnectionResetError:
+                    # any other error from the transport: received bytes stay buffered, the caller may try again
+                    p = conserve('after-transport-error:' + call[0])
+                    if p:
+                        return p
+                    attempts += 1
+                    st.count('transport_errors_retried')
+                    if attempts > len(c['script']) + 8:
+                        return ('retry-does-not-progress:' + call[0], 'still failing after %d retries (case %r)' % (attempts, c))
+                    continue
                 except Exception as e:
                     res = ('exc', type(e).__name__)
                 break
@@ -417,6 +429,8 @@ def gen(r):
         for ch in chunks:
             if timeout and r.random() < 0.2:
                 script.append(['timeout'])
+            elif r.random() < 0.04:
+                script.append(['oserror'])
             script.append(['data', ch, r.choice([0, 0, 0, 0.01, 0.3, 7.0]) if timeout else 0])
         if timeout and r.random() < 0.3:
             script.append(['timeout'])
